@@ -52,6 +52,29 @@ def patch_runtime_state():
     _PATCHED[0] = True
 
 
+def make_defaults(defaults):
+    """defaults = None | {'bools': {NAME: bool}, 'req': None | [args]} -> the dict given as
+    config['default_runtime_state'] (ONE object, shared by every doctest of the history, as the runner does)"""
+    if not defaults:
+        return {}
+    d = dict(defaults.get('bools') or {})
+    if defaults.get('req') is not None:
+        d['REQUIRES'] = set(defaults['req'])
+    return d
+
+
+def render_defaults(d):
+    return repr(sorted((k, sorted(v) if isinstance(v, (set, frozenset)) else v) for k, v in d.items()))
+
+
+def defaults_cfg(defaults):
+    """the cfg tail of the protocol: `<bools>;<reportKey>;<req>`"""
+    bools = ','.join('%s=%d' % (k, 1 if v else 0) for k, v in ((defaults or {}).get('bools') or {}).items()) or '~'
+    req = (defaults or {}).get('req')
+    reqf = 'N' if req is None else ('+'.join(enc(a) for a in req) or '~')
+    return '%s;REPORT_UDIFF;%s' % (bools, reqf)
+
+
 class Case(object):
     """a generated module on disk"""
 
@@ -94,12 +117,12 @@ def _fmt_ns(d):
     return ','.join(items) or '~'
 
 
-def model_doc_field(case_docs_k, ex):
+def model_doc_field(case_docs_k, ex, defaults=None):
     """the protocol field of one doctest: the REAL partition into parts, each with its statements"""
     items = case_docs_k
     codes = [gi.code_of(it) for it in items]
     pos = 0
-    fields = ['0;1;1;~;REPORT_UDIFF']
+    fields = ['0;1;1;' + defaults_cfg(defaults)]
     for p in ex._parts:
         n = len(p.exec_lines)
         stmts = codes[pos:pos + n]
@@ -112,10 +135,10 @@ def model_doc_field(case_docs_k, ex):
     return '#'.join(fields)
 
 
-def model_line(case, exs, history):
+def model_line(case, exs, history, defaults=None):
     docs = []
     for k, ex in enumerate(exs):
-        f = model_doc_field(case.docs[k], ex)
+        f = model_doc_field(case.docs[k], ex, defaults)
         if f is None:
             return None
         docs.append(f)
@@ -226,11 +249,16 @@ class ProcState(object):
             pass
 
 
-def run_history(case, history):
-    """fresh DocTest objects, the module not imported yet; returns (exs, records)"""
+def run_history(case, history, defaults=None):
+    """fresh DocTest objects, the module not imported yet; returns (exs, records, config-unchanged?)"""
     patch_runtime_state()
     case.forget()
     exs = case.parse()
+    cfg = make_defaults(defaults)
+    before = render_defaults(cfg)
+    if defaults:
+        for e in exs:
+            e.config['default_runtime_state'] = cfg       # one shared dict, as runner.doctest_module pushes it
     recs = []
     with ProcState():
         buf = io.StringIO()
@@ -238,10 +266,10 @@ def run_history(case, history):
             for i, oe in history:
                 recs.append(observe_run(case, exs[i], oe))
     case.forget()
-    return exs, recs
+    return exs, recs, (before, render_defaults(cfg))
 
 
-def run_alone(case, i):
+def run_alone(case, i, defaults=None):
     """the oracle: doctest `i` run once, alone, fresh objects, in a forked child that never
     imported the module; returns its record (or an error text)"""
     r, w = os.pipe()
@@ -253,6 +281,8 @@ def run_alone(case, i):
             patch_runtime_state()
             case.forget()
             exs = case.parse()
+            if defaults:
+                exs[i].config['default_runtime_state'] = make_defaults(defaults)
             buf = io.StringIO()
             with contextlib.redirect_stdout(buf):
                 rec = observe_run(case, exs[i], 'r')
@@ -280,7 +310,7 @@ def run_alone(case, i):
         return 'child-error: no answer'
 
 
-def run_module_runner(case, times=2):
+def run_module_runner(case, times=2, defaults=None):
     """the same module through runner.doctest_module, `times` times in this process; every
     DocTest.run is observed through a class-level wrapper. Returns list of (callname, record)."""
     from xdoctest import runner, doctest_example
@@ -301,6 +331,8 @@ def run_module_runner(case, times=2):
         return _LAST_SUMMARY(self)
     results = []
     errors = []
+    cfg = make_defaults(defaults)
+    before = render_defaults(cfg)
     doctest_example.DocTest.run = run
     try:
         with ProcState():
@@ -308,13 +340,17 @@ def run_module_runner(case, times=2):
             with contextlib.redirect_stdout(buf):
                 for _ in range(times):
                     try:
-                        runner.doctest_module(case.modpath, command='all', argv=[''], verbose=0)
+                        if defaults:
+                            runner.doctest_module(case.modpath, command='all', argv=[''], verbose=0,
+                                                  config={'default_runtime_state': cfg})
+                        else:
+                            runner.doctest_module(case.modpath, command='all', argv=[''], verbose=0)
                     except BaseException as e:   # noqa
                         errors.append(repr(e))
     finally:
         doctest_example.DocTest.run = orig_run
         case.forget()
-    return seen, errors
+    return seen, errors, (before, render_defaults(cfg))
 
 
 def _LAST_SUMMARY(ex):
